@@ -607,8 +607,16 @@ func nativeReplay(files []harnessFile, pkgDir string, replayFiles []string) []st
 		var s string
 		// nondeterminism without a program seam (map iteration order, math/rand) is replayed by
 		// bounded retry: the replay confirms as soon as one native run exhibits the violation
-		for attempt := 0; attempt < 40; attempt++ {
-			run := exec.Command(bin, "-test.run", "^TestVerifReplay$", "-test.timeout", "120s", "-test.v")
+		attempts := 40
+		if strings.Contains(rec.Obligation, "nodeadlock") {
+			attempts = 4 // each attempt is a free-running stress of many rounds
+		}
+		for attempt := 0; attempt < attempts; attempt++ {
+			tmo := "120s"
+			if strings.Contains(rec.Obligation, "nodeadlock") {
+				tmo = "60s"
+			}
+			run := exec.Command(bin, "-test.run", "^TestVerifReplay$", "-test.timeout", tmo, "-test.v")
 			run.Dir = tmp
 			run.Env = append(os.Environ(), "VERIF_REPLAY="+rf)
 			ob, _ = run.CombinedOutput()
@@ -619,6 +627,9 @@ func nativeReplay(files []harnessFile, pkgDir string, replayFiles []string) []st
 		}
 		switch {
 		case strings.Contains(s, "VERIF-ASSERT-FAIL "+rec.Obligation+"\n"):
+			out[i] = "confirmed"
+		case strings.Contains(rec.Obligation, "nodeadlock") && (strings.Contains(s, "test timed out") || strings.Contains(s, "all goroutines are asleep")):
+			// the native process hung: the deadlock is real
 			out[i] = "confirmed"
 		case strings.Contains(rec.Obligation, "nopanic") && strings.Contains(s, "panic:") && strings.Contains(s, "goroutine "):
 			// the native process itself died from a panic (e.g. in a goroutine the server spawned)
